@@ -448,6 +448,10 @@ where
             rng_seed: RngSeed::Fixed(derive_seed(p.seed, self.name, p.shard)),
             rng_algorithm: RngAlgorithm::ChaCha,
             max_shrink_iters: 3000,
+            // shrinking only makes the reported failure smaller; on the large-scale ladders one evaluation can cost
+            // 0.1-0.5 s, so 3000 steps would hold a failing run for a quarter of an hour (seen with seeded C10-12).
+            // The verdict does not depend on this budget, only the minimality of the replay file does.
+            max_shrink_time: 90_000,
             max_global_rejects: 1 << 30,
             verbose: 0,
             ..Config::default()
